@@ -284,7 +284,7 @@ U2(s) ==
                                               Ec(<<"players", "bots", i - 1, "ping">>, 0), E(<<"players", "bots", i - 1, "score">>, "pscore" \o X(s.players + i)),
                                               E(<<"players", "bots", i - 1, "stats_id">>, "pstats" \o X(s.players + i))>>]),
    \* lists without a protocol-defined order (D1): compared as multisets
-   unordered |-> <<<<"mutators_and_rules", "mutators">>, <<"players", "players">>, <<"players", "bots">>>>,
+   unordered |-> <<<<"mutators_and_rules", "mutators">>, <<"mutators_and_rules", "rules", "*">>, <<"players", "players">>, <<"players", "bots">>>>,
    entry |-> "unreal2"]
 
 -----------------------------------------------------------------------------
